@@ -74,9 +74,9 @@ def bump_maps(nc, shape, rng):
     grids = np.meshgrid(*[np.linspace(-1, 1, n) for n in shape], indexing="ij")
     mps = np.zeros((nc,) + tuple(shape), np.complex128)
     for c in range(nc):
-        ctr = rng.uniform(-1.5, 1.5, len(shape))
+        ctr = rng.uniform(-1.25, 1.25, len(shape))
         ph = rng.uniform(-1, 1, len(shape) + 1)
-        w = rng.uniform(1.5, 4)
+        w = rng.uniform(2.5, 5)
         r2 = sum((g - c0) ** 2 for g, c0 in zip(grids, ctr))
         mps[c] = np.exp(-r2 / w) * np.exp(1j * (ph[0] + sum(p * g for p, g in zip(ph[1:], grids))))
     return mps
